@@ -207,6 +207,7 @@ func runC15(t *simrt.Tape, o Opts) Outcome {
 	cfg := schedCfg(t, o, !syn && t.Choose(2, "schedmix") == 1)
 	var st Stats
 	st.Oracle = map[string]int{}
+	st.Faults = map[string]int{}
 	var viols []world.Violation
 	violate := func(sig, format string, a ...any) {
 		if len(viols) == 0 {
@@ -363,6 +364,7 @@ func runC15(t *simrt.Tape, o Opts) Outcome {
 			case c15Advance:
 				d := []time.Duration{time.Second, 9 * time.Second, 10 * time.Second, 11 * time.Second}[t.Choose(4, "adv")]
 				prog = append(prog, fmt.Sprintf("advance(%v)", d))
+				st.Faults["clock.jump-forward"]++
 				s.Advance(d)
 			case c15Close:
 				prog = append(prog, "Close()")
@@ -505,6 +507,7 @@ func runC15Concurrent(t *simrt.Tape, o Opts, pi, ci int, syn, expOn bool) Outcom
 	cfg := schedCfg(t, o, true)
 	var st Stats
 	st.Oracle = map[string]int{}
+	st.Faults = map[string]int{}
 	var viols []world.Violation
 	violate := func(sig, format string, a ...any) {
 		if len(viols) == 0 {
@@ -586,6 +589,7 @@ func runC15Concurrent(t *simrt.Tape, o Opts, pi, ci int, syn, expOn bool) Outcom
 					case c15Delete:
 						c.Delete(stp.key)
 					case c15Advance:
+						st.Faults["clock.jump-forward"]++
 						s.Advance(stp.adv)
 					}
 				}
